@@ -245,13 +245,13 @@ func catalogue(w *World) *Catalogue {
 // Precompile dispatch tables, parsed from each Run and IsTransaction.
 
 type PCMethod struct {
-	ABIName  string
-	Const    *types.Const
-	Handler  *ssa.Function
+	ABIName    string
+	Const      *types.Const
+	Handler    *ssa.Function
 	HandlerObj *types.Func
-	IsTx     bool
-	Swallow  bool // Run converts the handler's error into Pack(false…)
-	CallPos  ast.Node
+	IsTx       bool
+	Swallow    bool // Run converts the handler's error into Pack(false…)
+	CallPos    ast.Node
 }
 
 type PCTable struct {
